@@ -257,6 +257,19 @@ class DocModel(object):
     else:
       self._auto_remove_set.discard(record)
 
+  def get_auto_removes(self):
+    """
+    Returns a copy of the set of records currently marked for automatic removal.
+    """
+    return set(self._auto_remove_set)
+
+  def set_auto_removes(self, records):
+    """
+    Replaces the set of records marked for automatic removal, e.g. with an earlier result of
+    get_auto_removes(), to forget the marks made by an evaluation that must have no effect.
+    """
+    self._auto_remove_set = set(records)
+
   def apply_auto_removes(self):
     """
     Remove the records marked for removal.
